@@ -136,7 +136,10 @@ def _values_for(rng, origin, cons):
                 [5, 6, 7], [5, 5, 9], [4, 5], [9, 9, 9, 9], [(1,), (1,)], [None, None], [1.5, 2.5], [10, 20, 30]]
         nan = float("nan")
         if origin in ("list", "tuple", "deque"):
-            base += [[[1], [1]], [[1], [2]], [nan, nan], [nan, float("nan")], [{"a": 1}, {"a": 1}]]
+            base += [[[1], [1]], [[1], [2]], [nan, nan], [nan, float("nan")], [{"a": 1}, {"a": 1}],
+                     # equal items of different Python types: hashable next to unhashable, a str-enum member next to its value
+                     [b"k", bytearray(b"k")], [bytearray(b"k"), 1, b"k"], [{1, 2}, frozenset({1, 2})], [frozenset({1, 2}), {1, 2}],
+                     [V.Tone.RED, "red"], ["red", 2, V.Tone.RED], [b"k", bytearray(b"j")], [(), []]]
         if origin == "dict":
             return [dict((str(i), x) for i, x in enumerate(b)) for b in base]
         out = []
